@@ -256,6 +256,13 @@ def _native_method(it, o, name):
         real = getattr(o, name, None)
         if real is not None:
             return Builtin(f"tuple.{name}", real)
+    if isinstance(o, (list, dict, tuple)) and name in ("__getitem__", "__contains__", "__len__", "__iter__"):
+        # bound item protocol of a container (e.g. `key=xs.__getitem__`): route through the interpreter's own protocols
+        return Builtin(f"{type(o).__name__}.{name}", {"__getitem__": lambda k: it.getitem(o, k), "__contains__": lambda x: it.contains(o, x),
+                                                      "__len__": lambda: len(o), "__iter__": lambda: list(it.iterate(o))}[name])
+    if isinstance(o, (list, dict, set, frozenset, tuple)) and hasattr(o, name):
+        # a real attribute of a Python container that the model does not cover: not a program error
+        raise Unsupported(f"attribute {name} of {type(o).__name__}")
     raise PyRaise(it.make_exc("AttributeError", f"'{type(o).__name__}' object has no attribute '{name}'"))
 
 
